@@ -538,7 +538,7 @@ class ActisenseNmea2000Gateway(TextNmea2000Gateway):
         Args:
             nmea2000Message: The NMEA2000Message object to encode.
         """
-        raise NotImplementedError("Actisense encoding not implemented yet.")
+        raise ValueError("Actisense encoding not implemented yet.")
 
 class YachtDevicesNmea2000Gateway(TextNmea2000Gateway):
     """TCP implementation of AsyncIOClient for NMEA2000 Yacht Devices gateways.
